@@ -316,4 +316,166 @@ theorem start_tinv (ppOf : Int → Nat → Nat) (script : List Reply) (q : Qry) 
   · intro h; simp [start, startIter] at h
   · intro h; rcases h with h | h <;> simp [start] at h
 
+/-! ### strides against the specification -/
+
+theorem force_out (ppOf : Int → Nat → Nat) (e : Env) (it : It) : (force ppOf e it).1.out = it.out := by
+  unfold force
+  cases it.cur.err <;> cases it.pre <;> cases it.cur.next <;> rfl
+
+/-- a call that returns true has handed over exactly one more row; one that returns false none -/
+theorem scanF_out (ppOf : Int → Nat → Nat) : ∀ (k : Nat) (e : Env) (it : It),
+    ((scanF ppOf k e it).2.2 = true → ∃ r, (scanF ppOf k e it).1.out = it.out ++ [r]) ∧
+    ((scanF ppOf k e it).2.2 = false → (scanF ppOf k e it).1.out = it.out) := by
+  intro k
+  induction k with
+  | zero => intro e it; simp [scanF]
+  | succ k ih =>
+    intro e it
+    unfold scanF
+    cases hs : scanRow it.cur with
+    | some rc => obtain ⟨r, c'⟩ := rc; simp
+    | none =>
+      simp only []
+      cases he : it.cur.err with
+      | some f => simp
+      | none =>
+        simp only []
+        cases hn : it.cur.next with
+        | none => simp
+        | some n =>
+          simp only []
+          cases hp : (force ppOf e it).1.pre with
+          | none => simp [force_out]
+          | some nx =>
+            simp only []
+            have h := ih (force ppOf e it).2 { (force ppOf e it).1 with cur := nx, pre := none }
+            simpa [force_out] using h
+
+/-- the result of the query: the rows the specification lists for the script -/
+def J (ppOf : Int → Nat → Nat) (R : List Int) (w : W) : Prop := WInv ppOf w ∧ (target ppOf w.it).1 = R
+
+theorem J_prefix {ppOf : Int → Nat → Nat} {R : List Int} {w : W} (h : J ppOf R w) : w.it.out <+: R := by
+  have h1 := h.1.2
+  rw [← h.2, ← h1]
+  exact ⟨_, rfl⟩
+
+theorem J_of_same (ppOf : Int → Nat → Nat) (R : List Int) (w : W) (x : It) (e : Env) (a : Async)
+    (hw : J ppOf R w) (hx : Same ppOf x w.it) (he : e.cancelled = []) : J ppOf R { it := x, env := e, async := a } :=
+  ⟨winv_of_same ppOf w x e a hw.1 hx he, by show (target ppOf x).1 = R; rw [target_of_same hx]; exact hw.2⟩
+
+theorem scan1_spec (ppOf : Int → Nat → Nat) (api : Api) (R : List Int) (w : W) (hw : J ppOf R w) :
+    J ppOf R (scan1 ppOf api w).1 ∧
+    ((scan1 ppOf api w).2 = true → (scan1 ppOf api w).1.it.out.length = w.it.out.length + 1 ∧ w.it.out.length < R.length) ∧
+    ((scan1 ppOf api w).2 = false → (scan1 ppOf api w).1.it.out = w.it.out ∧ w.it.out.length = R.length) := by
+  have hsame := scanF_same ppOf (scanFuel w.it) w.env w.it hw.1.1
+  have hj : J ppOf R (scan1 ppOf api w).1 := J_of_same ppOf R w _ _ _ hw hsame.1 hsame.2
+  have ho := scanF_out ppOf (scanFuel w.it) w.env w.it
+  refine ⟨hj, ?_, ?_⟩
+  · intro ht
+    obtain ⟨r, hr⟩ := ho.1 ht
+    have hlen : (scan1 ppOf api w).1.it.out.length = w.it.out.length + 1 := by
+      show (scanF ppOf (scanFuel w.it) w.env w.it).1.out.length = _
+      rw [hr]; simp
+    refine ⟨hlen, ?_⟩
+    have := (J_prefix hj).length_le
+    omega
+  · intro hf
+    have hout : (scan1 ppOf api w).1.it.out = w.it.out := ho.2 hf
+    refine ⟨hout, ?_⟩
+    have hfin : finished (scan1 ppOf api w).1.it := scanF_fuel ppOf w.env w.it hf
+    have ht := tot_finished ppOf _ hfin
+    have h1 := hj.1.2
+    rw [ht] at h1
+    have h2 := hj.2
+    rw [← h1] at h2
+    simp only at h2
+    rw [← hout, h2]
+
+theorem scanK_spec (ppOf : Int → Nat → Nat) (api : Api) (R : List Int) : ∀ (k : Nat) (w : W), J ppOf R w →
+    J ppOf R (scanK ppOf api k w).1 ∧
+    (scanK ppOf api k w).1.it.out.length = min (w.it.out.length + k) R.length ∧
+    (scanK ppOf api k w).2 = decide (w.it.out.length + k ≤ R.length) := by
+  intro k
+  induction k with
+  | zero =>
+    intro w hw
+    have := (J_prefix hw).length_le
+    refine ⟨hw, ?_, ?_⟩
+    · show w.it.out.length = _; omega
+    · show true = _; simp; omega
+  | succ k ih =>
+    intro w hw
+    have h1 := scan1_spec ppOf api R w hw
+    unfold scanK
+    simp only []
+    cases hb : (scan1 ppOf api w).2 with
+    | true =>
+      simp only [if_true]
+      have h2 := ih _ h1.1
+      have h3 := h1.2.1 hb
+      refine ⟨h2.1, ?_, ?_⟩
+      · rw [h2.2.1, h3.1]; congr 1; omega
+      · rw [h2.2.2, h3.1]; congr 1; apply propext; constructor <;> intro h <;> omega
+    | false =>
+      simp only [Bool.false_eq_true, if_false]
+      have h3 := h1.2.2 hb
+      refine ⟨h1.1, ?_, ?_⟩
+      · rw [h3.1]; omega
+      · rw [hb]; symm; simp; omega
+
+theorem await_J (ppOf : Int → Nat → Nat) (R : List Int) (w : W) (hw : J ppOf R w) :
+    J ppOf R (await ppOf w).1 ∧ (await ppOf w).1.it.out = w.it.out := by
+  unfold await
+  cases w.it.cur.next with
+  | none => exact ⟨hw, rfl⟩
+  | some n =>
+    simp only []
+    cases ha : w.async with
+    | idle => exact ⟨⟨⟨hw.1.1, hw.1.2⟩, hw.2⟩, rfl⟩
+    | launched =>
+      have h := force_same ppOf w.env hw.1.1 w.it
+      exact ⟨J_of_same ppOf R w _ _ _ hw h.1 h.2.1, force_out ppOf w.env w.it⟩
+    | disarmed => exact ⟨hw, rfl⟩
+    | awaited => exact ⟨hw, rfl⟩
+
+theorem arrive_J (ppOf : Int → Nat → Nat) (R : List Int) (w : W) (hw : J ppOf R w) :
+    J ppOf R (arrive ppOf w) ∧ (arrive ppOf w).it.out = w.it.out := by
+  unfold arrive
+  split
+  · have h := force_same ppOf w.env hw.1.1 w.it
+    exact ⟨J_of_same ppOf R w _ _ _ hw h.1 h.2.1, force_out ppOf w.env w.it⟩
+  · exact ⟨hw, rfl⟩
+
+theorem take_drop_stride (R : List Int) (c k : Nat) (out' : List Int) (hp : out' <+: R)
+    (hl : out'.length = min (c + k) R.length) : out'.drop c = (R.drop c).take k := by
+  have he : out' = R.take (min (c + k) R.length) := by
+    rw [← hl]; exact (List.prefix_iff_eq_take.1 hp)
+  rw [he, List.drop_take]
+  rcases Nat.le_total (c + k) R.length with h | h
+  · rw [Nat.min_eq_left h]; congr 1; omega
+  · rw [Nat.min_eq_right h]
+    rw [List.take_of_length_le (by simp), List.take_of_length_le (by simp; omega)]
+
+theorem strideLog_spec (ppOf : Int → Nat → Nat) (R : List Int) : ∀ (steps : List Step) (w : W), J ppOf R w →
+    strideLog ppOf w steps = Spec.strides R w.it.out.length (strideKs steps) := by
+  intro steps
+  induction steps with
+  | nil => intro w _; rfl
+  | cons s rest ih =>
+    intro w hw
+    cases s with
+    | scan api k =>
+      have h := scanK_spec ppOf api R k w hw
+      simp only [strideLog, strideKs, Spec.strides]
+      rw [ih _ h.1, h.2.1, h.2.2, take_drop_stride R w.it.out.length k _ (J_prefix h.1) h.2.1]
+    | observe => exact ih w hw
+    | await =>
+      have h := await_J ppOf R w hw
+      simp only [strideLog, strideKs, step]
+      rw [ih _ h.1, h.2]
+    | arrive =>
+      have h := arrive_J ppOf R w hw
+      simp only [strideLog, strideKs, step]
+      rw [ih _ h.1, h.2]
+
 end Paging.Walk
